@@ -55,6 +55,22 @@ CHECKS = {
         "Accepted sockets carry no timeout (CPython semantics); default schedule; quick tier every 5th offset plus all offsets within 7 bytes of PDU boundaries, thorough every offset.",
         "3/C08",
     ),
+    "C09": (
+        "model_checking",
+        "enum",
+        "explicit-state BFS over operation sequences on the real Timer against an elapsed-time reference model, plus wall-clock-step injection into running simulated associations",
+        "All sequences of start/stop/restart/timeout changes/clock advances/wall-clock steps up to the reported depth are executed on the real Timer with de-duplication on the canonical timer state; expired and remaining are compared with the reference at every step.  The same wall-clock steps (+-1 s, +-1 h at five instants) are injected into four real life-cycle scenarios under the simulator and must change neither outcome nor end time.",
+        "time enters pynetdicom.timer only through its module-level `time` reference; reference model per DESIGN.md A.5.",
+        "3/C09",
+    ),
+    "C10": (
+        "exploration",
+        "enum",
+        "bounded-exhaustive enumeration of proposals x supported configurations x role proposals through the real negotiation functions against a reference model",
+        "Every combination of 1-2 (thorough: 3) proposed contexts over five kinds of abstract syntax with duplicates, transfer-syntax lists, supported configurations (absent or preference list with roles in {None,True,False}^2) and role proposals {absent,TT,TF,FT,FF}, plus a 128-context proposal, is run through negotiate_as_acceptor and negotiate_unrestricted and compared with vk/ref/neg.py: one result per ID with the proposed abstract syntax, result codes, acceptor-preferred transfer syntax, granted roles, role replies never exceeding the proposal, never accepted without a role.",
+        "Reference transcribed from PS3.8 / PS3.7 D.3.3.4 and the documented role table; role proposals restricted to what the wire can carry (booleans).",
+        "3/C10",
+    ),
     "C26": (
         "model_checking",
         "sim",
